@@ -32,6 +32,7 @@ props! {
     "C04" => c04,
     "C05" => c05,
     "C06" => c06,
+    "C07" => c07,
     "C08" => c08,
     "C09" => c09,
     "C10" => c10,
@@ -84,6 +85,7 @@ pub fn extra_command(api: &dyn GlobalApi, cmd: &str, args: &[String]) -> i32 {
     let num = |i: usize| -> u64 { args.get(i).and_then(|s| s.parse().ok()).unwrap_or(0) };
     match cmd {
         "c18-first" => return c18::firstcall_child(api, num(2) as usize, num(3)),
+        "race" => return c07::race(api, num(2)),
         "c17-batch" => return c17::batch_child(api, args),
         "c17-one" => return c17::one_child(api, args),
         _ => {}
